@@ -23,9 +23,9 @@ pub struct C01;
 
 pub fn cfg() -> AspCfg {
     AspCfg {
-        preds: vec![("p".into(), 1), ("q".into(), 1), ("r".into(), 2), ("s".into(), 0), ("p".into(), 2)],
+        preds: vec![("p".into(), 1), ("q".into(), 1), ("r".into(), 2), ("s".into(), 0), ("p".into(), 2), ("t".into(), 3)],
         // names that collide with the translator's fresh variables
-        vars: vec!["X".into(), "Y".into(), "I".into(), "J".into(), "K".into(), "Q".into(), "R".into(), "Z".into(), "Z1".into(), "V1".into(), "V".into(), "V2".into(), "V8".into(), "V98".into()],
+        vars: vec!["X".into(), "Y".into(), "I".into(), "J".into(), "K".into(), "Q".into(), "R".into(), "Z".into(), "Z1".into(), "Z2".into(), "V1".into(), "V".into(), "V2".into(), "V8".into(), "V98".into()],
         syms: vec!["a".into(), "b".into()],
         num_lo: -3,
         num_hi: 4,
@@ -383,11 +383,17 @@ pub struct FrontCase {
 }
 
 fn front_cfg() -> AspCfg {
-    AspCfg {
+    let mut c = AspCfg {
         num_lo: 0,
         term_depth: 4,
         ..cfg()
+    };
+    // names that begin like a keyword or with an underscore
+    for (n, a) in [("not_q", 1), ("notp", 1), ("_r", 1), ("not_", 0)] {
+        c.preds.push((n.to_string(), a));
     }
+    c.syms.extend(["nota".to_string(), "_c".to_string(), "not_a".to_string()]);
+    c
 }
 
 impl Check for FrontEnd {
